@@ -69,48 +69,12 @@ def _digit(c):
     return 99
 
 
-def p_number_radix_prefix(case, rec, exp):
-    if case.get("k") != "num":
-        return False
-    t = "".join(chr(u) for u in _trim(case.get("s", [])))
-    if not re.fullmatch(r"0[xX][0-9a-fA-F]+|0[bB][01]+|0[oO][0-7]+", t):
-        return False
-    return int(t, 0) >= 2 ** 63 and _obs_int(rec) == NAN and _exp_int(exp) not in (None, NAN)
 
 
-def p_literal_binoct(case, rec, exp):
-    if case.get("k") != "lit":
-        return False
-    t = _s(case)
-    if not (re.fullmatch(r"0[bB][01_]+|0[oO][0-7_]+", t) or (re.fullmatch(r"0[xX][0-9a-fA-F_]+", t) and "_" in t)):
-        return False
-    e = _exp_int(exp)
-    return e is not None and e >= 0 and int(t.replace("_", ""), 0) >= 2 ** 63 and _obs_int(rec) == -1
 
 
-def p_hex_literal_multiround(case, rec, exp):
-    if case.get("k") != "lit":
-        return False
-    t = _s(case)
-    e = _exp_int(exp)
-    if not re.fullmatch(r"0[xX][0-9a-fA-F_]+", t) or e is None or e < 0:
-        return False
-    d = t[2:].replace("_", "")
-    if int(d, 16) < 2 ** 63:
-        return False
-    v = 0.0
-    for c in d:                      # lexer.go parseNumberLiteral: value = value*16 + digit, one rounding per digit
-        v = v * 16 + _digit(c)
-    return _obs_int(rec) == _bits(v) and _obs_int(rec) != e
 
 
-def p_legacy_octal_as_decimal(case, rec, exp):
-    if case.get("k") != "lit":
-        return False
-    t = _s(case)
-    if not re.fullmatch(r"0[0-7]+", t) or int(t, 8) < 2 ** 63:
-        return False
-    return _obs_int(rec) == _bits(float(t)) and _exp_int(exp) == _bits(float(int(t, 8)))
 
 
 def p_nonoctal_decimal_rejected(case, rec, exp):
@@ -123,146 +87,26 @@ def p_nonoctal_decimal_rejected(case, rec, exp):
     return _obs_int(rec) == -1 and e is not None and e >= 0
 
 
-def _parseint_shape(case):
-    """(negative, radix, digit string) as the specification reads the input, or None"""
-    u = case.get("s", [])
-    a = 0
-    while a < len(u) and u[a] in WS:
-        a += 1
-    t = "".join(chr(x) for x in u[a:])
-    neg = t.startswith("-")
-    if t[:1] in "+-" and t:
-        t = t[1:]
-    r = case.get("p", 0) % 2 ** 32
-    if r >= 2 ** 31:
-        r -= 2 ** 32
-    if r != 0 and not 2 <= r <= 36:
-        return None
-    strip = r in (0, 16)
-    if r == 0:
-        r = 10
-    if strip and t[:2] in ("0x", "0X"):
-        t, r = t[2:], 16
-    n = 0
-    while n < len(t) and _digit(t[n]) < r:
-        n += 1
-    return (neg, r, t[:n]) if n else None
 
 
-def p_parseint_per_digit_rounding(case, rec, exp):
-    if case.get("k") != "pi":
-        return False
-    sh = _parseint_shape(case)
-    if not sh:
-        return False
-    neg, r, ds = sh
-    if int(ds, r) < 2 ** 63:
-        return False
-    # builtin_global.go parseInt/parseLargeInt: int64 accumulation, then n = n*b + v in float64 per digit
-    maxi = 2 ** 63 - 1
-    cutoff = maxi // r + 1
-    n = 0
-    f = None
-    for i, c in enumerate(ds):
-        if n >= cutoff:
-            f, rest = float(n), ds[i:]
-            break
-        v = _digit(c)
-        n1 = n * r + v
-        if n1 > maxi:
-            f, rest = float(n * r) + float(v), ds[i + 1:]
-            break
-        n = n1
-    if f is None:
-        return False
-    for c in rest:
-        f = f * float(r) + float(_digit(c))
-    if neg:
-        f = -f
-    o, e = _obs_int(rec), _exp_int(exp)
-    return o == _bits(f) and e is not None and o != e
 
 
-def p_parseint_negzero(case, rec, exp):
-    if case.get("k") != "pi":
-        return False
-    sh = _parseint_shape(case)
-    return bool(sh) and sh[0] and int(sh[2], sh[1]) == 0 and _obs_int(rec) == 0 and _exp_int(exp) == NEG0
 
 
-def p_negative_carry_sign(case, rec, exp):
-    if case.get("k") not in ("exp", "prec"):
-        return False
-    b, x = _x(case)
-    o, e = _obs_str(rec), _exp_str(exp)
-    if not (x < 0) or o is None or e is None:
-        return False
-    # the round-up carry of 99..9 ran into the '-' (0x2d) and made it '.' (0x2e); the exponent was not bumped
-    return o.startswith(".") and e.startswith("-1") and set(re.sub(r"e[+-]\d+$", "", o)) <= set(".0")
 
 
-def p_subnormal_leading_digit(case, rec, exp):
-    if case.get("k") not in ("exp", "prec"):
-        return False
-    b, x = _x(case)
-    if (b >> 52) & 0x7FF != 0 or b & (2 ** 52 - 1) == 0:
-        return False
-    o, e = _obs_str(rec), _exp_str(exp)
-    if o is None or e is None:
-        return False
-    o1 = o[1:] if o.startswith("-") else o
-    e1 = e[1:] if e.startswith("-") else e
-    return len(o1) > 0 and ord(o1[0]) > ord("9") and e1[:1].isdigit() and case.get("p", 0) >= 17
 
 
-def p_tobasestr_sign_lost(case, rec, exp):
-    if case.get("k") != "radix":
-        return False
-    b, x = _x(case)
-    r = case.get("p", 0)
-    o = _obs_str(rec)
-    return -1 < x < 0 and 2 <= r <= 36 and r != 10 and o is not None and o.startswith("0.") and "AValid false" in (exp or "")
 
 
-def p_tofloat_unicode_nan(case, rec, exp):
-    if case.get("k") != "num" or case.get("sf") != "max":
-        return False
-    return any(u >= 128 for u in case.get("s", [])) and _obs_int(rec) == NAN and _exp_int(exp) not in (None, NAN)
 
 
-def p_nel_whitespace(case, rec, exp):
-    if case.get("k") != "num" or case.get("sf") == "max":
-        return False
-    u = case.get("s", [])
-    if 133 not in u:
-        return False
-    # removing the U+0085 units at the ends (only there) must be what goja did: expected NaN, observed a number
-    return _exp_int(exp) == NAN and _obs_int(rec) not in (None, NAN, -1)
 
 
-def p_sign_after_radix_prefix(case, rec, exp):
-    if case.get("k") != "num" or case.get("sf") == "max":
-        return False
-    t = "".join(chr(u) for u in _trim(case.get("s", [])))
-    if not re.fullmatch(r"0[xX][+-][0-9a-fA-F]+|0[bB][+-][01]+|0[oO][+-][0-7]+", t):
-        return False
-    return _exp_int(exp) == NAN and _obs_int(rec) not in (None, NAN, -1)
 
 
 PREDICATES = {
-    "C12.sign_after_radix_prefix_accepted": p_sign_after_radix_prefix,
-    "C12.number_radix_prefix_ge_2p63_nan": p_number_radix_prefix,
-    "C12.literal_bin_oct_ge_2p63_syntaxerror": p_literal_binoct,
-    "C12.hex_literal_ge_2p63_rounded_per_digit": p_hex_literal_multiround,
-    "C12.legacy_octal_literal_ge_2p63_read_as_decimal": p_legacy_octal_as_decimal,
     "C12.nonoctal_decimal_literal_rejected": p_nonoctal_decimal_rejected,
-    "C12.parseint_ge_2p63_rounded_per_digit": p_parseint_per_digit_rounding,
-    "C12.parseint_negative_zero_sign_lost": p_parseint_negzero,
-    "C12.negative_roundup_carry_overwrites_sign": p_negative_carry_sign,
-    "C12.subnormal_many_digits_bad_leading_digit": p_subnormal_leading_digit,
-    "C12.tobasestr_negative_fraction_sign_lost": p_tobasestr_sign_lost,
-    "C12.tofloat_non_ascii_string_nan": p_tofloat_unicode_nan,
-    "C12.nel_u0085_trimmed_as_whitespace": p_nel_whitespace,
 }
 
 # ---------------------------------------------------------------------------------------------
